@@ -16,7 +16,7 @@ Theorem step_correct e k o s a : no_where o = true ->
   scope e o -> op_kf e k o = 0 -> kinv s -> qseteq (quads s) a -> step_ok e k o s a.
 Proof.
   intros Hnw Hd Hkf Hk Ha.
-  destruct o as [ts qs|ts qs|tm om|w ud un d i om|tm|w ud un d i p|sl g|sl g|sl x y|sl x y|sl x y|sl c].
+  destruct o as [ts qs|ts qs|tm om|w ud un d i om|tm|w ud un d i p|sl g|sl g|sl x y|sl x y|sl x y|sl c|w ud un d i om].
   - apply insert_data_ok; auto.
   - apply delete_data_ok; auto.
   - apply delete_where_ok; auto.
@@ -29,6 +29,7 @@ Proof.
   - apply move_ok; auto.
   - apply copy_ok; auto.
   - destruct sl; [|discriminate]. exists s. simpl. auto.
+  - apply modify_s_ok; auto.
 Qed.
 
 Lemma step_correct2 e k o s a : scope e o -> no_where o = true ->
@@ -145,16 +146,18 @@ Theorem modify_where e k s w ud un d i p : where_ok p -> store_ok (quads s) -> k
          (In q (quads s) /\ ~ In q (s_all e false k dg d om)) \/ In q (s_all e true k dg i om).
 Proof.
   intros [W F] [Hn Hb] Hk Hs Hkf dg.
-  pose proof (where_solutions e k w ud un d i p (quads s) W F Hn Hb Hs Hkf) as P.
+  pose proof (where_solutions e w ud un p (quads s) F Hn Hb) as P.
   set (om := m_omega e w ud un p (quads s)) in *.
-  assert (Hs' : scope e (Modify w (negb (is_nil ud)) (negb (is_nil un)) d i om)).
-  { destruct Hs as [Hs|Hs]; [left; auto|right]. simpl in *.
+  assert (Hs' : has_dataset e = true \/
+                (w = None /\ negb (is_nil ud) || negb (is_nil un) = false
+                 /\ tm_has_quads d = false /\ tm_has_quads i = false)).
+  { destruct Hs as [Hs|Hs]; [left; auto|right]. simpl in Hs.
     repeat (apply orb_false_iff in Hs; destruct Hs as [Hs ?]).
-    repeat (apply orb_false_iff; split); auto. }
-  destruct (modify_ok e k w (negb (is_nil ud)) (negb (is_nil un)) d i om s (quads s) Hs' Hk)
+    destruct w; [discriminate|]. repeat split; auto. apply orb_false_iff. auto. }
+  destruct (evalModify_ok e k w (negb (is_nil ud) || negb (is_nil un)) d i om s (quads s) Hs' Hk)
     as [s' [E [Q I]]]; [intros q; tauto|].
   exists s', om. split; [|split; [auto|split; [auto|]]].
-  - simpl. simpl in E. fold om.
+  - simpl. fold om.
     assert (X : negb (has_dataset e) && uses_graph p = false).
     { destruct Hs as [Hs|Hs]; [rewrite Hs; reflexivity|]. simpl in Hs.
       apply orb_false_iff in Hs. destruct Hs as [_ Hs]. rewrite Hs. apply andb_false_r. }
@@ -193,10 +196,16 @@ Proof.
   rewrite (s_all_perm e false k (dflt e) (Some tm) _ _ q Hl (dw_solutions e tm (quads s) Hn Hb)). tauto.
 Qed.
 
-(* well-formed cases: every graph that holds a quad is known to the store
-   (Memory.add); a WHERE clause evaluated by the model only in the first
-   operation of the request (there the store is the case's quad list itself),
-   in the fragment, over a duplicate-free store, templates without labels *)
+(* well-formed cases: every graph that holds a quad is known to the store (Memory.add) *)
+Definition wf (c : case) : Prop := forall q, In q (c_quads c) -> In (snd q) (c_known c).
+
+(* THE FRAGMENT of the request-level theorems (not a well-formedness condition):
+   an operation whose solutions the model computes (ModifyW, DeleteWhereW) occurs
+   only as the FIRST operation of the request - there the store is the case's quad
+   list itself -, its WHERE pattern is in the fragment BGP / Join / Union / GRAPH
+   accepted by C04's [frag], its templates carry no blank-node label, the store has
+   no duplicate quad and none of C04's two boolean ids; no CREATE without SILENT.
+   Outside it: the single-step theorems (any position, any template) and conformance. *)
 Definition op_where_wf (o : uop) : Prop :=
   match o with
   | ModifyW _ _ _ d i p => where_ok p /\ tmpl_nolabel d = true /\ tmpl_nolabel i = true
@@ -205,22 +214,21 @@ Definition op_where_wf (o : uop) : Prop :=
   | _ => True
   end.
 
-Definition wf (c : case) : Prop :=
-  (forall q, In q (c_quads c) -> In (snd q) (c_known c))
-  /\ match c_ops c with
-     | [] => True
-     | o :: r => op_where_wf o /\ (no_where o = false -> store_ok (c_quads c)) /\ forallb no_where r = true
-     end.
+Definition in_model_where (c : case) : Prop :=
+  match c_ops c with
+  | [] => True
+  | o :: r => op_where_wf o /\ (no_where o = false -> store_ok (c_quads c)) /\ forallb no_where r = true
+  end.
 
 Lemma named_only_In l c : In c (named_only l) <-> In c l /\ c <> 0.
 Proof. unfold named_only. rewrite filter_In, negb_true_iff, N.eqb_neq. tauto. Qed.
 
-Theorem request_correct c : wf c -> kf c = 0 ->
+Theorem request_correct c : wf c -> in_model_where c -> kf c = 0 ->
   has_dataset (c_env c) = true \/ forallb (fun o => negb (needs_dataset o)) (c_ops c) = true ->
   exists s', eval_from (c_env c) 0 (c_ops c) (init_state c) = Ok s'
     /\ qseteq (quads s') (spec_from (c_env c) 0 (c_ops c) (c_quads c)) /\ kinv s'.
 Proof.
-  intros [W1 W2] Hkf Hd. unfold kf in Hkf.
+  intros W1 W2 Hkf Hd. unfold kf in Hkf. unfold in_model_where in W2.
   assert (K0 : kinv (init_state c)) by exact W1.
   destruct (c_ops c) as [|o r] eqn:Eo.
   - exists (init_state c). simpl. split; auto. split; auto. intros q; tauto.
@@ -234,7 +242,7 @@ Proof.
         assert (Hs : scope (c_env c) o).
         { destruct Hd as [Hd|Hd]; [left; auto|right]. simpl in Hd. apply andb_true_iff in Hd.
           apply negb_true_iff. tauto. }
-        destruct o as [| | | |tm0|w usingd usingn del ins where_| | | | | |[|] c0]; try discriminate; [| |destruct Ow].
+        destruct o as [| | | |tm0|w usingd usingn del ins where_| | | | | |[|] c0|]; try discriminate; [| |destruct Ow].
         - destruct (step_delete_where (c_env c) 0 (init_state c) tm0 (Os eq_refl) K0 Hs Ow) as [s1 H1].
           exists s1. tauto.
         - destruct Ow as [Hw [Ld Li]].
@@ -250,13 +258,13 @@ Proof.
       rewrite E1. exact E2.
 Qed.
 
-Theorem spec_ok_model c : wf c -> kf c = 0 -> spec_ok c (model_obs c) = true.
+Theorem spec_ok_model c : wf c -> in_model_where c -> kf c = 0 -> spec_ok c (model_obs c) = true.
 Proof.
-  intros W Hkf. unfold spec_ok, model_obs.
+  intros W Wm Hkf. unfold spec_ok, model_obs.
   destruct (in_scope (c_env c) (c_ops c)) eqn:Hs.
   2:{ destruct (eval_from _ _ _ _); reflexivity. }
   unfold in_scope in Hs. apply andb_true_iff in Hs. destruct Hs as [Hs _]. apply orb_true_iff in Hs.
-  destruct (request_correct c W Hkf Hs) as [s' [E [Q I]]].
+  destruct (request_correct c W Wm Hkf Hs) as [s' [E [Q I]]].
   rewrite E.
   assert (F : forallb (fun x => N.eqb (snd x) 0 || memb N.eqb (snd x) (named_only (known s'))) (quads s') = true).
   { apply forallb_forall. intros q Hq. destruct (N.eqb_spec (snd q) 0); simpl; auto.
@@ -275,6 +283,7 @@ Definition op_graphs (e : env) (o : uop) (c : cid) : Prop :=
   | DeleteWhereW _ => True
   | ModifyW _ _ _ _ _ _ => True
   | Create _ _ => False
+  | ModifyS _ _ _ _ _ _ => True
   | Clear _ g | Drop _ g =>
       match g with GDefault => c = dflt e | GNamed => c <> dflt e | GAll => True | GIri x => c = x end
   | Add _ _ y => c = gd_cid e y
@@ -283,10 +292,10 @@ Definition op_graphs (e : env) (o : uop) (c : cid) : Prop :=
   end.
 
 Lemma spec_untouched_data e k o a c :
-  match o with Modify _ _ _ _ _ _ | ModifyW _ _ _ _ _ _ | DeleteWhere _ _ | DeleteWhereW _ => False | _ => True end ->
+  match o with Modify _ _ _ _ _ _ | ModifyS _ _ _ _ _ _ | ModifyW _ _ _ _ _ _ | DeleteWhere _ _ | DeleteWhereW _ => False | _ => True end ->
   ~ op_graphs e o c -> forall t, In (t, c) (spec_op e k o a) <-> In (t, c) a.
 Proof.
-  intros Hk Hn t. destruct o as [ts qs|ts qs|tm om|w ud un d i om|tm|w ud un d i p|sl g|sl g|sl x y|sl x y|sl x y|sl c0];
+  intros Hk Hn t. destruct o as [ts qs|ts qs|tm om|w ud un d i om|tm|w ud un d i p|sl g|sl g|sl x y|sl x y|sl x y|sl c0|w ud un d i om];
     simpl in *; try tauto.
   - rewrite in_app_iff. unfold data_quads. rewrite in_app_iff, to_graph_In, in_flat_map. simpl.
     split; [|tauto]. intros [H|[[_ H]|[b [Hb H]]]]; auto; exfalso; apply Hn; auto.
@@ -354,6 +363,7 @@ Definition op_bounded (n : N) (o : uop) : Prop :=
   | InsertData ts qs => triples_bounded n ts /\ forall b, In b qs -> triples_bounded n (snd b)
   | Modify _ _ _ _ (Some i) om => tmpl_bounded n i /\ omega_bounded n om
   | ModifyW _ _ _ _ _ _ => False   (* not covered: the bound values are computed *)
+  | ModifyS _ _ _ _ _ _ => False   (* as Modify; not repeated here *)
   | _ => True
   end.
 
@@ -422,7 +432,7 @@ Theorem older_step e k o a : op_bounded (window k) o -> older (window k) a ->
 Proof.
   intros Hb Ho. pose proof (window_mono k) as Hm.
   assert (Ho' : older (window (k + 1)) a) by (eapply older_mono; eauto).
-  destruct o as [ts qs|ts qs|tm om|w ud un d i om|tm|w ud un d i p|sl g|sl g|sl x y|sl x y|sl x y|sl c0]; simpl;
+  destruct o as [ts qs|ts qs|tm om|w ud un d i om|tm|w ud un d i p|sl g|sl g|sl x y|sl x y|sl x y|sl c0|w ud un d i om]; simpl;
     intros q Hq t Ht; try (destruct Hb; fail).
   - apply in_app_iff in Hq. destruct Hq as [Hq|Hq]; [eapply Ho'; eauto|].
     destruct Hb as [B1 B2]. apply data_quads_In' in Hq.
@@ -612,3 +622,14 @@ Proof.
   - apply iso_eqb_sound. exact H.
 Qed.
 
+
+(* requests all of whose solution lists are given: only well-formedness is assumed *)
+Theorem spec_ok_model_given c : wf c -> forallb no_where (c_ops c) = true -> kf c = 0 ->
+  spec_ok c (model_obs c) = true.
+Proof.
+  intros W N K. apply spec_ok_model; auto.
+  unfold in_model_where. destruct (c_ops c) as [|o r]; auto.
+  simpl in N. apply andb_true_iff in N. destruct N as [N1 N2].
+  split; [|split; [intros H; congruence|exact N2]].
+  destruct o as [| | | | | | | | | | |[|] ?|]; try exact I; discriminate.
+Qed.
